@@ -569,5 +569,39 @@ func (n *Node) RecvContribute(as string, account string, secret bls.SecretKey, v
 	return &rs, rv, nil
 }
 
+// RecvContributeLate delivers a contribution; the reply is serialised and decoded only when the returned function is
+// called (a gRPC server serialises a reply after the handler has returned, while other requests are being handled).
+func (n *Node) RecvContributeLate(as string, account string, secret bls.SecretKey, vvec []bls.PublicKey) (func() (*bls.SecretKey, []bls.PublicKey, error), error) {
+	req := &pb.ContributeRequest{Account: account, Secret: secret.Serialize()}
+	for i := range vvec {
+		req.VerificationVector = append(req.VerificationVector, vvec[i].Serialize())
+	}
+	wire := &pb.ContributeRequest{}
+	if err := roundTrip(req, wire); err != nil {
+		return nil, err
+	}
+	res, err := n.Receiver.Contribute(n.ctxAs(as), wire)
+	if err != nil {
+		return nil, err
+	}
+	return func() (*bls.SecretKey, []bls.PublicKey, error) {
+		out := &pb.ContributeResponse{}
+		if err := roundTrip(res, out); err != nil {
+			return nil, nil, err
+		}
+		var rs bls.SecretKey
+		if err := rs.Deserialize(out.GetSecret()); err != nil {
+			return nil, nil, fmt.Errorf("reply secret does not decode: %w", err)
+		}
+		rv := make([]bls.PublicKey, len(out.GetVerificationVector()))
+		for i, k := range out.GetVerificationVector() {
+			if err := rv[i].Deserialize(k); err != nil {
+				return nil, nil, fmt.Errorf("reply vector does not decode: %w", err)
+			}
+		}
+		return &rs, rv, nil
+	}, nil
+}
+
 // PeerName is the authenticated name of the peer with the given id.
 func PeerName(id uint64) string { return nodeName(id) }
